@@ -70,11 +70,12 @@ def tolerance_gate(r: R, chk, rule_prefix: str = ""):
                     gates.append(g)
     chk.floor("GATE-TOL", "tolerance comparison guarding a ValueError in update", len(gates), 1)
     writes = r.write_nodes(ctx, 0)
-    nopts = [n for n in r.stmt_nodes(ctx) if n.kind == "test" and "ctrlpoints is None" in seg(n.ast)]
+    from .c08 import path_facts
+
     chk.floor("GATE-TOL", "state writes in update", len(writes), 2)
     for w in sorted(writes):
         n = ctx.cfg.nodes[w]
-        a = any(ctx.cfg.edge_dominates(t.id, "t", w) for t in nopts)
+        a = ("self.ctrlpoints is None", True) in path_facts(ctx, w)
         b = any(r.guard_dominates(ctx, g, w) for g in gates)
         chk.ob("GATE-TOL", f"{UPDATE}: `{seg(n.ast, 50)}` only after `error > tolerance` ⇒ ValueError has passed (or no control points)", a or b, loc=r.loc(ctx, n.ast),
                detail="" if (a or b) else f"{UPDATE}: the state write `{seg(n.ast, 60)}` at {r.loc(ctx, n.ast)} is reachable without passing the tolerance comparison: a lossy removal / reduction is committed silently",
